@@ -83,6 +83,8 @@ type Ctx struct {
 	P    *Prog
 	R    *Report
 	Tier string
+	// gateOnly: C08 run for a sibling property decides who is admitted only
+	gateOnly bool
 
 	userIface *types.Interface
 	callers   map[*ssa.Function][]ssa.CallInstruction
